@@ -372,6 +372,22 @@ HAND = [
 ]
 
 
+def normalise(src):
+    """What `garden check` does to the file text before checking it (remove_testing_footer in src/main.rs):
+    `str::lines` (LF or CRLF ends a line), stop at a line starting `// args: `, every line ends in LF."""
+    lines = src.split("\n")
+    if lines and lines[-1] == "":
+        lines.pop()
+    out = []
+    for l in lines:
+        if l.endswith("\r"):
+            l = l[:-1]
+        if l.startswith("// args: "):
+            break
+        out.append(l + "\n")
+    return "".join(out)
+
+
 # ---------------------------------------------------------------------------
 # Independent reading of "apply all the fixes": pairwise overlap test + simultaneous splice on bytes
 
@@ -515,7 +531,9 @@ def check_round(ctx, exe, mdl, items):
     """items: list of dict(src, orig (outcome of the very first program or None), round, root).
     Returns (next items, failures) where failures are (key, what, item, detail)."""
     srcs = [it["src"] for it in items]
-    groups_all, raw = hook_fixes(exe, srcs)
+    for it in items:
+        it["seen"] = normalise(it["src"])      # the text `check` works on (offsets refer to it)
+    groups_all, raw = hook_fixes(exe, [it["seen"] for it in items])
     cli = cli_fix(exe, srcs)
     fails = []
     fixed = []
@@ -532,7 +550,7 @@ def check_round(ctx, exe, mdl, items):
             continue
         fixed.append(out)
     # model correspondence + independent splice
-    mcases = [(it["src"], it["groups"]) for it, f in zip(items, fixed) if it.get("groups") is not None]
+    mcases = [(it["seen"], it["groups"]) for it, f in zip(items, fixed) if it.get("groups") is not None]
     mres = iter(model_apply(mdl, mcases)) if mdl else None
     for it, f in zip(items, fixed):
         if it.get("groups") is None:
@@ -547,14 +565,14 @@ def check_round(ctx, exe, mdl, items):
             ctx.stat("correspondence_mismatch")
             ctx.cov.setdefault("corr", [])
             if len(ctx.cov["corr"]) < 5:
-                ctx.cov["corr"].append({"src": it["src"], "groups": groups, "cli": f, "model": m})
+                ctx.cov["corr"].append({"src": it["seen"], "groups": groups, "cli": f, "model": m})
         chosen, skipped = select_groups(groups)
         if skipped:
             ctx.stat("fix lists with overlapping groups (resolved by skipping a group)")
         elif nfix:
             ctx.stat("fix lists pairwise non-overlapping")
         if not ambiguous_same_point(chosen):
-            want = simultaneous_splice(it["src"], [x for g in chosen for x in g])
+            want = simultaneous_splice(it["seen"], [x for g in chosen for x in g])
             if want != f:
                 fails.append(("fix-not-a-splice",
                               "the fixed text is not the simultaneous splice of the non-overlapping fix groups"
@@ -562,7 +580,7 @@ def check_round(ctx, exe, mdl, items):
         else:
             ctx.stat("fix lists with two edits at one offset (model only)")
     # parse + run of the fixed programs
-    idx = [i for i, f in enumerate(fixed) if f is not None and f != items[i]["src"]]
+    idx = [i for i, f in enumerate(fixed) if f is not None and f != items[i]["seen"]]
     okp, rawp = parses(exe, [fixed[i] for i in idx])
     runs = run_all(exe, [fixed[i] for i in idx])
     nxt = []
@@ -575,59 +593,65 @@ def check_round(ctx, exe, mdl, items):
             continue
         if it["orig"] is not None and it["orig"][0] == "ok":
             o = outcome(rr)
+            if o[0] == "no-run" and "panic" in rr:
+                fails.append(("fixed-program-panics-the-evaluator",
+                              "original: %r; the program after --fix crashes the interpreter: %s"
+                              % (it["orig"], rr["panic"][:200]), it, {"fixed": f}))
+                continue
             if o != it["orig"]:
                 fails.append(("fixed-program-behaves-differently",
                               "original: %r; after --fix: %r" % (it["orig"], o), it, {"fixed": f}))
                 continue
             ctx.stat("fixed programs run and compared")
         nxt.append({"src": f, "orig": it["orig"], "round": it["round"] + 1, "root": it["root"],
-                    "trig": it.get("trig"), "tag": it.get("tag")})
+                    "trig": it.get("trig"), "tag": it.get("tag"),
+                    "opswap": it.get("opswap") or any(x[3].startswith("Replace `") for x in flat(it["groups"]))})
     for i, f in enumerate(fixed):
-        if f is not None and f == items[i]["src"]:
+        if f is not None and f == items[i]["seen"]:
             ctx.stat("fixed point reached after %d round(s)" % items[i]["round"])
     return nxt, fails
 
 
-def violates(exe, src, key):
-    """Re-decide one program from scratch (used by the shrinker and the replay): the keys it violates."""
+def violating(exe, srcs, key):
+    """Which of these programs (each decided from scratch) violate `key`?  One batch per round for all of them."""
     ctx = common.Ctx("C22", "quick", 0)
-    ok, _ = parses(exe, [src])
-    if not ok[0]:
-        return set()
-    o = outcome(run_all(exe, [src])[0])
-    items = [{"src": src, "orig": o, "round": 0, "root": src}]
-    keys = set()
+    okp, _ = parses(exe, srcs)
+    runs = run_all(exe, srcs)
+    items = [{"src": s, "orig": outcome(r), "round": 0, "root": i} for i, (s, p, r) in enumerate(zip(srcs, okp, runs)) if p]
+    bad = set()
     for rnd in range(MAX_ROUNDS + 1):
+        items = [it for it in items if it["root"] not in bad]
         if not items:
             break
         if rnd == MAX_ROUNDS:
-            keys.add("no-fixed-point")
+            if key == "no-fixed-point":
+                bad |= set(it["root"] for it in items if not it.get("opswap"))
             break
         items, fails = check_round(ctx, exe, None, items)
-        keys |= set(k for k, _, _, _ in fails)
-        if key in keys:
-            break
-    return keys
+        bad |= set(it["root"] for k, _, it, _ in fails if k == key)
+    return bad
 
 
-def shrink(exe, src, key, budget=60):
-    """Greedy line/chunk deletion keeping the violation."""
+def violates(exe, src, key):
+    return {key} if violating(exe, [src], key) else set()
+
+
+def shrink(exe, src, key, rounds=14):
+    """Line/chunk deletion keeping the violation; every round tries all deletions of one size in one batch."""
     lines = src.split("\n")
-    n = 0
     chunk = max(1, len(lines) // 2)
-    while chunk >= 1 and n < budget:
-        i = 0
-        changed = False
-        while i < len(lines) and n < budget:
-            cand = lines[:i] + lines[i + chunk:]
-            n += 1
-            if cand and key in violates(exe, "\n".join(cand), key):
-                lines = cand
-                changed = True
-            else:
-                i += chunk
-        if not changed or chunk == 1:
-            chunk //= 2
+    for _ in range(rounds):
+        cands = [lines[:i] + lines[i + chunk:] for i in range(0, len(lines), chunk)]
+        cands = [c for c in cands if c and c != lines]
+        if not cands:
+            break
+        bad = violating(exe, ["\n".join(c) for c in cands], key)
+        if bad:
+            lines = min((cands[i] for i in bad), key=len)
+        elif chunk == 1:
+            break
+        else:
+            chunk = max(1, chunk // 2)
     return "\n".join(lines)
 
 
@@ -669,6 +693,11 @@ def search(ctx, exe, mdl, progs, label):
             break
         if rnd == MAX_ROUNDS:
             for it in items:
+                if it.get("opswap"):
+                    # error-severity suggestion (`*` <-> `*.` on a value of the empty type), not one of the lints
+                    # the property quantifies over: counted and described in the notes, not a C22 violation
+                    ctx.stat("outside the quantifier: int/float operator suggestion oscillates")
+                    continue
                 report(ctx, exe, "no-fixed-point", "`--fix` has not reached a fixed point after %d rounds" % MAX_ROUNDS, it, None)
             break
         nxt, fails = check_round(ctx, exe, mdl, items)
@@ -703,7 +732,7 @@ def run(ctx):
     if "fixes" not in probe[0]:
         ctx.broken("hook:fixes", "the `fixes` hook op is not available: %s" % json.dumps(probe[0])[:200])
         return
-    n = 4000 if ctx.thorough else 500
+    n = int(os.environ.get("VERIF_C22_N", 4000 if ctx.thorough else 300))   # VERIF_C22_N: smoke runs only
     progs = [(s, {}, "hand") for s in HAND] + gen_programs(ctx.rng, n, size=6)
     if ctx.thorough:
         progs += gen_programs(ctx.rng, 1500, size=14)
